@@ -19,7 +19,7 @@ RULE = ("every key of chord_shorthand / chord_shorthand_meaning x every root (le
         "Non-trivial: a root with an accidental, or an alias/slash/polychord form, or a chord containing a "
         "double-accidental note; for malformed input a string that starts with a valid root or ends in a known "
         "shorthand."
-        " Also: three- and four-part polychords, slash chords as upper / lower part of a polychord, any valid name (mixed / many accidentals) as slash bass, 'X|NC', and a coverage-guided atheris campaign over shorthand-like text.")
+        " Also: three- and four-part polychords, slash chords as upper / lower part of a polychord, any valid name (mixed / many accidentals) as slash bass, 'X|NC', and a coverage-guided atheris campaign over shorthand-like text. The empty string and empty slash / polychord parts are enumerated and generated as malformed text.")
 ASSUMPTIONS = [
     "the empty string and empty slash/polychord parts ('', 'C/', 'C|', 'C//G') are malformed input like any other text: built or "
     "rejected with FormatError/NoteFormatError (they raised IndexError on the pinned tree; repaired, see KNOWN_FINDINGS.txt)",
